@@ -201,6 +201,7 @@ Proof.
   destruct b as [i m a|i|i|i|i|i|i|i|i m a|n| |i m a].
   - (* call *)
     destruct (live_inst w i) as [it|] eqn:Hl; [|cbn; lia]. apply live_inst_nth in Hl as [Hn _].
+    destruct (matcher_panics (w_cfg w) (w_state w) m a) as [sp|]; [cbn [fst]; unfold originals, set_state; cbn [w_insts]; lia|].
     destruct (call _ _ _ _ _ _ _ _) as [s' act]. cbn [fst]. unfold after_call, originals.
     destruct act; cbn; try lia; rewrite (Hupd _ i it); try lia; try assumption; reflexivity.
   - (* clone *)
